@@ -7,33 +7,100 @@ from .absint import AObj, EnumVal, OrdInt
 from .pm import ProgramModel
 
 
-class ModelBuilder:
-    """Builds abstract model objects by evaluating the analysed classes' own `__init__` (so that any
-    field a constructor sets - caches included - exists), then pins the fields the checks rely on."""
+DISCREPANCIES: list[tuple[str, str, str]] = []       # (class, field, text): constructors that do not keep what they get
 
-    def __init__(self, pm: ProgramModel) -> None:
+
+def _same(spec: Any, got: Any) -> bool:
+    """Does the object hold the value it was given? (containers by the identity of their elements)"""
+    if isinstance(spec, AObj) or isinstance(got, AObj):
+        return spec is got
+    if isinstance(spec, (list, tuple)) and isinstance(got, (list, tuple)):
+        return len(spec) == len(got) and all(_same(a, b) for a, b in zip(spec, got))
+    if isinstance(spec, EnumVal) or isinstance(got, EnumVal):
+        return spec == got
+    if isinstance(spec, dict) and isinstance(got, dict):
+        return list(spec) == list(got) and all(_same(spec[k], got[k]) for k in spec)
+    return type(spec) is type(got) and spec == got
+
+
+def _show(v: Any) -> str:
+    if isinstance(v, AObj):
+        return f"<{v._cls} {v._f.get('name', '')}>"
+    if isinstance(v, (list, tuple)):
+        return "[" + ", ".join(_show(x) for x in v) + "]"
+    return repr(v)
+
+
+class ModelBuilder:
+    """Builds abstract model objects through the analysed classes' own API: the constructor is evaluated from
+    source with the values of the specification (and relations are attached with `Feature.add_relation`, as the
+    readers do), then each field is read back: a constructor or attach method that does not keep what it was given
+    is recorded in DISCREPANCIES (reported by every check as <prop>-MODEL). Afterwards the fields the checks rely
+    on are pinned to the specification, so that the rest of the analysis speaks about the intended model."""
+
+    def __init__(self, pm: ProgramModel, style: str = "at-once") -> None:
         from .absint import Interp
         self.pm = pm
+        self.style = style            # "at-once": Relation(parent, children, ..); "incremental": add_child one by one
         ft = pm.enum_members(pm.cls("FeatureType")) if pm.has_cls("FeatureType") else {}
         self.boolean = EnumVal("FeatureType", "BOOLEAN", ft.get("BOOLEAN", "Boolean"))
         self.ops = pm.enum_members(pm.cls("ASTOperation")) if pm.has_cls("ASTOperation") else {}
         self._it = Interp(pm)
 
-    def _new(self, cls: str, args: list[Any], fields: dict[str, Any]) -> AObj:
+    def _read(self, obj: AObj, field: str) -> Any:
+        """The value of a field as the object's own class presents it (attribute, property or getter)."""
+        from .absint import AbsRaise
+        from .core import AnalysisError
+        import ast as _ast
+        before = set(obj._reads)
+        try:
+            return self._it.getattr(obj, field, _ast.Constant(value=None), None)
+        except (AbsRaise, AnalysisError):
+            return _NOVALUE
+        finally:
+            obj._reads.clear()               # reading back is not a read by the analysed code
+            obj._reads.update(before)
+
+    def _verify(self, cls: str, obj: AObj, spec: dict[str, Any], how: str) -> None:
+        for k, want in spec.items():
+            got = self._read(obj, "ast" if (cls == "Constraint" and k == "_ast") else k)
+            if got is _NOVALUE:
+                continue
+            if cls == "Constraint" and k == "_ast":
+                continue                      # compared structurally by the caller (the tree may be rewritten in place)
+            if not _same(want, got):
+                DISCREPANCIES.append((cls, k, f"{how}: {cls}.{k} was given {_show(want)} and holds {_show(got)}"))
+
+    def _new(self, cls: str, args: list[Any], fields: dict[str, Any], verify: bool = True) -> AObj:
         from .absint import AbsRaise
         from .core import AnalysisError
         obj: Optional[AObj] = None
         if self.pm.has_cls(cls):
             try:
                 obj = self._it.eval_call_class(self.pm.cls(cls), args)
-            except (AnalysisError, AbsRaise):
+            except AbsRaise as exc:
+                if not self.pm.cls(cls).unit.env:
+                    DISCREPANCIES.append((cls, "__init__", f"{cls}({', '.join(_show(a) for a in args)}) raises {exc.what}"))
+                obj = None
+            except AnalysisError:
                 obj = None
         if obj is None:
             obj = AObj(cls)
+        elif verify and not self.pm.cls(cls).unit.env:
+            self._verify(cls, obj, fields, f"{cls}({', '.join(_show(a) for a in args)})")
         for k, v in fields.items():
-            obj._f[k] = v
+            self._pin(obj, k, v)
         obj._f.pop("_complete", None)
         return obj
+
+    def _pin(self, obj: AObj, k: str, v: Any) -> None:
+        """Make the field hold the specified value (through the property setter when the class has one)."""
+        from .absint import AbsMutation, AbsRaise
+        from .core import AnalysisError
+        try:
+            self._it.setattr_obj(obj, k, v)
+        except (AbsRaise, AbsMutation, AnalysisError):
+            obj._f[k] = v
 
     def op(self, name: str) -> EnumVal:
         return EnumVal("ASTOperation", name, self.ops.get(name, name))
@@ -41,14 +108,60 @@ class ModelBuilder:
     def feature(self, name: str, parent: Optional[AObj] = None, is_abstract: bool = False,
                 ftype: Optional[EnumVal] = None, card: tuple[int, int] = (1, 1)) -> AObj:
         cardo = self._new("Cardinality", [card[0], card[1]], {"min": card[0], "max": card[1]})
-        return self._new("Feature", [name], {
-            "name": name, "parent": parent, "relations": [], "is_abstract": is_abstract,
-            "feature_type": ftype or self.boolean, "feature_cardinality": cardo, "attributes": []})
+        ft = ftype or self.boolean
+        rels: list[Any] = []
+        return self._new("Feature", [name, rels, parent, is_abstract, ft, cardo], {
+            "name": name, "parent": parent, "relations": rels, "is_abstract": is_abstract,
+            "feature_type": ft, "feature_cardinality": cardo, "attributes": []})
 
     def relation(self, parent: AObj, children: list[AObj], lo: int, hi: int,
                  attach: bool = True) -> AObj:
-        r = self._new("Relation", [parent, list(children), lo, hi],
-                      {"parent": parent, "children": list(children), "card_min": lo, "card_max": hi})
+        from .absint import AbsMutation, AbsRaise
+        from .core import AnalysisError
+        kids = list(children)
+        prior = {id(c): c._f.get("parent") for c in kids}
+        spec = {"parent": parent, "children": kids, "card_min": lo, "card_max": hi}
+        if self.style == "incremental" and self.pm.has_cls("Relation") and \
+                self.pm.method(self.pm.cls("Relation"), "add_child") is not None:
+            # the idiom of the FaMa XML reader: an empty relation, filled child by child, then attached
+            r = self._new("Relation", [parent, [], lo, hi], {}, verify=False)
+            add = self.pm.method(self.pm.cls("Relation"), "add_child")
+            try:
+                for c in kids:
+                    self._it.call(add, [r, c])
+            except (AbsRaise, AbsMutation, AnalysisError) as exc:
+                DISCREPANCIES.append(("Relation", "add_child", f"Relation.add_child raises {getattr(exc, 'what', exc)}"))
+            how = f"Relation({_show(parent)}, [], {lo}, {hi}) filled with add_child"
+        else:
+            r = self._new("Relation", [parent, list(kids), lo, hi], {}, verify=False)
+            how = f"Relation({_show(parent)}, {_show(kids)}, {lo}, {hi})"
+        for c in kids:
+            gp = self._read(c, "parent")
+            if gp is not _NOVALUE and gp is not prior[id(c)]:
+                DISCREPANCIES.append(("Relation", "__init__", f"{how} (not attached to any feature yet) changes the parent of "
+                                      f"{_show(c)} to {_show(gp)}: building a relation must not edit the features it is given"))
+                c._f["parent"] = prior[id(c)]
+        if attach and self.pm.has_cls("Feature") and self.pm.method(self.pm.cls("Feature"), "add_relation") is not None:
+            before = list(parent._f["relations"])
+            try:
+                self._it.call(self.pm.method(self.pm.cls("Feature"), "add_relation"), [parent, r])
+            except (AbsRaise, AbsMutation, AnalysisError) as exc:
+                DISCREPANCIES.append(("Feature", "add_relation", f"Feature.add_relation raises {getattr(exc, 'what', exc)}"))
+            got_rels = self._read(parent, "relations")
+            if got_rels is not _NOVALUE and not _same(before + [r], got_rels):
+                DISCREPANCIES.append(("Feature", "relations", f"{how} attached with add_relation: the parent's relations are "
+                                      f"{_show(got_rels)}"))
+            for c in kids:
+                gp = self._read(c, "parent")
+                if gp is not _NOVALUE and gp is not parent:
+                    DISCREPANCIES.append(("Feature", "parent", f"{how} attached with add_relation: child {_show(c)} has parent "
+                                          f"{_show(gp)}"))
+            parent._f["relations"] = before
+        if not self.pm.cls("Relation").unit.env if self.pm.has_cls("Relation") else False:
+            self._verify("Relation", r, spec, how)
+        for k, v in spec.items():
+            self._pin(r, k, v)
+        r._f.pop("_complete", None)
         if attach:
             parent._f["relations"].append(r)
             for c in children:
@@ -63,17 +176,33 @@ class ModelBuilder:
 
     def constraint(self, name: str, root: AObj) -> AObj:
         a = self.ast(root)
-        return self._new("Constraint", [name, a], {"name": name, "_ast": a})
+        before = snapshot(a)
+        c = self._new("Constraint", [name, a], {"name": name, "_ast": a})
+        held = self._read(c, "ast")
+        if held is not _NOVALUE and (held is not a or snapshot(a) != before):
+            DISCREPANCIES.append(("Constraint", "ast", f"Constraint({name!r}, ...): the expression tree it was given is not the "
+                                  f"one it holds (replaced or rewritten in place)"))
+        return c
 
     def model(self, root: AObj, ctcs: Optional[list[AObj]] = None) -> AObj:
         cs = list(ctcs or [])
-        return self._new("FeatureModel", [root, cs], {"root": root, "ctcs": cs})
+        m = self._new("FeatureModel", [root, list(cs)], {"root": root})
+        got = self._read(m, "ctcs")
+        if got is not _NOVALUE and not _same(cs, got):
+            DISCREPANCIES.append(("FeatureModel", "ctcs", f"FeatureModel(root, {len(cs)} constraints) holds "
+                                  f"{len(got) if isinstance(got, (list, tuple)) else got} constraints"))
+        m._f["ctcs"] = cs
+        return m
 
     def attribute(self, name: str, default: Any = None, parent: Optional[AObj] = None,
                   domain: Any = None, null: Any = None) -> AObj:
-        return self._new("Attribute", [name, domain, default, null],
-                         {"name": name, "parent": parent, "domain": domain, "default_value": default,
-                          "null_value": null})
+        a = self._new("Attribute", [name, domain, default, null],
+                      {"name": name, "domain": domain, "default_value": default, "null_value": null})
+        a._f["parent"] = parent
+        return a
+
+
+_NOVALUE = object()
 
 
 def frozen_list(items: list[Any]) -> Any:
